@@ -39,7 +39,7 @@ def setup(extra_modules=()):
 # ======================================================================================
 # in-memory storage (harness side subclasses of the real abstract classes)
 def _bk(key):
-    return f"{key.run_id}-{key.data_type}-{key.lineage_hash}"
+    return f"{key._run_id}-{key.data_type}-{key.lineage_hash}"
 
 
 class MemBackend:
@@ -561,3 +561,119 @@ def filestore_shims(inj):
     if "np" in sf.__dict__:
         inj.inject_default(sf, which=("np",))
     return hs, js
+
+
+# ======================================================================================
+class StubFuture:
+    def __init__(self, fn, args, kwargs):
+        self.fn, self.args, self.kwargs = fn, args, kwargs
+        self._done, self._result, self._exc = False, None, None
+
+    def run(self):
+        if self._done:
+            return
+        try:
+            self._result = self.fn(*self.args, **self.kwargs)
+        except Exception as e:  # noqa
+            self._exc = e
+        self._done = True
+
+    def done(self):
+        return self._done
+
+    def result(self, timeout=None):
+        self.run()
+        if self._exc is not None:
+            raise self._exc
+        return self._result
+
+    def exception(self, timeout=None):
+        self.run()
+        return self._exc
+
+
+class StubPool:
+    """concurrent.futures look-alike for strax.utils.multi_run: work is done synchronously when `wait` says so;
+    `chooser(pending) -> list of futures to complete now` decides the completion order (solver-chosen in C15)."""
+
+    chooser = None
+    order = []
+
+    def __init__(self, max_workers=None):
+        self.max_workers = max_workers
+
+    def __enter__(self):
+        return self
+
+    def __exit__(self, *a):
+        return False
+
+    def submit(self, fn, *args, **kwargs):
+        return StubFuture(fn, args, kwargs)
+
+    def shutdown(self, wait=True):
+        pass
+
+
+def stub_wait(futures, timeout=None, return_when=None):
+    pending = [f for f in futures if not f.done()]
+    done = [f for f in futures if f.done()]
+    if pending:
+        pick = StubPool.chooser(pending) if StubPool.chooser else pending[:1]
+        for f in pick:
+            f.run()
+            StubPool.order.append(f.args[0] if f.args else None)
+        done = done + list(pick)
+    return set(done), set(f for f in futures if not f.done())
+
+
+def multirun_shims(inj, chooser=None):
+    import strax.utils as su
+
+    StubPool.chooser = chooser
+    StubPool.order = []
+
+    class NoBar:
+        def __init__(self, *a, **k):
+            pass
+
+        def update(self, *a):
+            pass
+
+        def close(self):
+            pass
+
+    inj.inject(su, ThreadPoolExecutor=StubPool, wait=stub_wait, tqdm=NoBar)
+
+
+def P_source_runs(name, kind, layouts, obj, save_when=None, fail_runs=()):
+    """Source whose chunking depends on the run id: layouts = {run_id: Layout}."""
+    import strax
+
+    class SourceR(strax.Plugin):
+        provides = (name,)
+        depends_on = ()
+        data_kind = kind
+        dtype = dt(ROW, obj)
+        rechunk_on_save = False
+
+        def source_finished(self):
+            return True
+
+        def is_ready(self, chunk_i):
+            return chunk_i < len(layouts[self.run_id].chunks)
+
+        def compute(self, chunk_i):
+            if self.run_id in fail_runs:
+                raise ZeroDivisionError(f"run {self.run_id} fails")
+            L = layouts[self.run_id]
+            rows = L.chunks[chunk_i]
+            a = new_arr(ROW, len(rows), obj)
+            for q, (t, e, i) in enumerate(rows):
+                a["time"][q], a["endtime"][q], a["id"][q] = t, e, i
+            return self.chunk(start=L.bounds[chunk_i], end=L.bounds[chunk_i + 1], data=a)
+
+    if save_when is not None:
+        SourceR.save_when = save_when
+    SourceR.__name__ = f"SourceR_{name}"
+    return SourceR
